@@ -10,8 +10,8 @@
 From Coq Require Import List ZArith Bool QArith Qround.
 Import ListNotations.
 From TV Require Import Lib.Obs C39.Model C39.Run C39.Proofs C39.ProofsMachine C39.ProofsQ
-  C39.ProofsChecker C39.ProofsCheckerQ C39.ProofsTimely C39.ProofsShape C39.ProofsExamples
-  C39.Ast Gen.C39_src Gen.C39_equiv.
+  C39.ProofsChecker C39.ProofsCheckerQ C39.ProofsTimely C39.ProofsShape C39.ProofsExamples C39.ProofsOverrun C39.ProofsCodec
+  C39.Ast C39.RunLoopSrc Gen.C39_src Gen.C39_equiv.
 
 (* ---------------------------------------------------------------------- *)
 (* 0. Tie to the source: the body of _update_next as read from tornado/ioloop.py by
@@ -25,6 +25,15 @@ Theorem C39_source_body_is_update_next_Q :
     = update_next_Q (period_Q ct jit r) now next.
 Proof. exact src_means_update_next_Q. Qed.
 Print Assumptions C39_source_body_is_update_next_Q.
+
+(* start / stop / _run / _schedule_next, as read from the working tree (normalised
+   text), are the methods the machine of Model.v was written from (RunLoopSrc.v);
+   their behaviour is tied to the machine by the correspondence check *)
+Theorem C39_source_runloop_is_expected :
+  src_start = expected_start /\ src_stop = expected_stop /\ src_run = expected_run
+  /\ src_schedule_next = expected_schedule_next.
+Proof. exact src_runloop_is_expected. Qed.
+Print Assumptions C39_source_runloop_is_expected.
 
 (* ---------------------------------------------------------------------- *)
 (* A. The deadline arithmetic over exact rationals, for every positive period,
@@ -115,6 +124,63 @@ Theorem C39_monotone_clock_at_most_one_period_ahead :
 Proof. exact timely_from_init. Qed.
 Print Assumptions C39_monotone_clock_at_most_one_period_ahead.
 
+(* Callbacks that take time.  A plain-function callback that returns when the clock
+   reads t (ERun (KSyncClock t)), in ANY state: _schedule_next uses the reading taken
+   AFTER the callback, so the new deadline is after t, and if the callback overran
+   (old deadline <= t) it is at most one period after t and is the FIRST point
+   old + j*p after t: the missed runs are skipped, not executed back-to-back. *)
+Theorem C39_sync_callback_overrun_skips_missed_periods :
+  forall (ct jitter : Q) (s : st Q) (t : Q) (h : nat) (d : Q),
+    In (OSched h d) (snd (step (upd_Q ct jitter) s (ERun (KSyncClock t)))) ->
+    let p := period_Q ct jitter (s_rnd s) in
+    0 < p ->
+    exists nx, s_next s = Some nx
+      /\ nx < d /\ t < d
+      /\ (nx <= t -> d <= t + p /\ forall j : Z, t < nx + inject_Z j * p -> d <= nx + inject_Z j * p)
+      /\ (exists k : Z, (1 <= k)%Z /\ d == nx + inject_Z k * p).
+Proof. exact sync_callback_overrun. Qed.
+Print Assumptions C39_sync_callback_overrun_skips_missed_periods.
+
+(* the same for a coroutine callback: the clock moves while it is suspended and the
+   reading at its completion (EDone) is the one used *)
+Theorem C39_coroutine_callback_overrun_skips_missed_periods :
+  forall (ct jitter : Q) (s : st Q) (h : nat) (d : Q),
+    In (OSched h d) (snd (step (upd_Q ct jitter) s EDone)) ->
+    let p := period_Q ct jitter (s_rnd s) in
+    let t := s_now s in
+    0 < p ->
+    exists nx, s_next s = Some nx
+      /\ nx < d /\ t < d
+      /\ (nx <= t -> d <= t + p /\ forall j : Z, t < nx + inject_Z j * p -> d <= nx + inject_Z j * p)
+      /\ (exists k : Z, (1 <= k)%Z /\ d == nx + inject_Z k * p).
+Proof. exact coroutine_callback_overrun. Qed.
+Print Assumptions C39_coroutine_callback_overrun_skips_missed_periods.
+
+(* Jitter: the effective period lies in the window of width |jitter| * period centred on
+   the period, for every random value in [0,1] ... *)
+Theorem C39_jitter_window :
+  forall ct jitter r : Q, 0 < ct -> 0 <= r -> r <= 1 ->
+    let p0 := ct / 1000 in
+    p0 * (1 - Qabs.Qabs jitter * (1 # 2)) <= period_Q ct jitter r
+    /\ period_Q ct jitter r <= p0 * (1 + Qabs.Qabs jitter * (1 # 2)).
+Proof. exact period_Q_window. Qed.
+Print Assumptions C39_jitter_window.
+
+(* ... so every deadline the run loop schedules (any state, any event) is at least the
+   short end of the window after the previous one, and at most the long end after
+   the clock reading when the previous one had been reached *)
+Theorem C39_jittered_deadline_window :
+  forall (ct jitter : Q) (s : st Q) (e : event Q) (h : nat) (d : Q),
+    In (OSched h d) (snd (step (upd_Q ct jitter) s e)) ->
+    let s' := fst (step (upd_Q ct jitter) s e) in
+    let p0 := ct / 1000 in
+    0 < ct -> Qabs.Qabs jitter < 2 -> 0 <= s_rnd s' -> s_rnd s' <= 1 ->
+    exists pv, prev_of s e = Some pv
+      /\ pv + p0 * (1 - Qabs.Qabs jitter * (1 # 2)) <= d
+      /\ (pv <= s_now s' -> d <= s_now s' + p0 * (1 + Qabs.Qabs jitter * (1 # 2))).
+Proof. exact jittered_deadline_window. Qed.
+Print Assumptions C39_jittered_deadline_window.
+
 (* ---------------------------------------------------------------------- *)
 (* C. The run loop, for ANY number type and ANY _update_next, all event orders *)
 
@@ -174,6 +240,15 @@ Theorem C39_exact_model_passes_full_checker :
            (snd (run (upd_Q ct jitter) (init t0 r0) evs)) = true.
 Proof. exact exact_model_passes_checker. Qed.
 Print Assumptions C39_exact_model_passes_full_checker.
+
+(* check_case decodes the observable; applied to the encoding of ANY trace it is the
+   trace checker on that trace — so check_case i (run_case i) = check_trace i (run_trace i),
+   and the two theorems above are statements about check_case on the model's output *)
+Theorem C39_check_case_reads_back_the_trace :
+  forall (i : c39_input) (tr : list (list (out (option Z)))),
+    check_case i (obs_of_trace tr) = check_trace i tr.
+Proof. exact check_case_of_encoded_trace. Qed.
+Print Assumptions C39_check_case_reads_back_the_trace.
 
 (* PARTIAL (named so): for the binary64 machine only the structural clauses are
    proved (C39_model_passes_structural_checker); its arithmetic clauses, with the
